@@ -713,7 +713,6 @@ func assignedAnywhere(info *types.Info, body ast.Node, v *types.Var) bool {
 	return found
 }
 
-
 // resliceSource: the one variable of which every assignment to v is a reslice or plain copy
 // (nil if v is assigned anything else, or from several variables).
 func resliceSource(info *types.Info, body ast.Node, v *types.Var) *types.Var {
